@@ -324,8 +324,8 @@ func TestVerif_C20(t *testing.T) {
 		t.Fatal(err)
 	}
 	names := []string{"a", "b", "ab", "A", "Ab"}
-	nTrees := kit.Pick(8, 48)
-	perTree := kit.Pick(64, 260)
+	nTrees := kit.Pick(8, 40)
+	perTree := kit.Pick(64, 200)
 	type tree struct {
 		entries []vEntry
 		id      string
